@@ -51,6 +51,7 @@ def run(c):
     sens = []
     if not c.quick:
         sens = [({"PinsUser": False}, "SwitchEnds|UserPinned|OneUser"), ({"CapOffset": 1}, "CapRespected"),
+                ({"RekeyResetsAuthState": True}, "UserPinned|CapRespected|OneUser"),
                 ({"PartialCounts": True}, "CapExact")]
         c.mc_holds("ServerAuth", A.mc_cfg(A.consts(FailCap=10, MaxDepth=14)), name="real cap, full alphabet, 13 messages", workers=2, env=A.JVM)
     for sw, inv in sens:
@@ -78,6 +79,25 @@ def run(c):
         jobs.append({"bursts": A.single(seq), "opts": {}, "key": "cap1|" + A.seq_key(seq), "names": A.DEFAULT_NAMES,
                      "sample": len(jobs) % 41 == 0})
         jobs.append({"bursts": [seq], "opts": {}, "key": "capP|" + A.seq_key(seq), "names": A.DEFAULT_NAMES})
+    # a key re-exchange between authentication messages keeps the pin and the counter: after it, naming the other
+    # user still ends the connection, and the attempts made before it still count towards the cap
+    prim = A.primary(msgs)
+    other = sorted(u for u in {m["user"] for m in msgs} if u not in ("", prim))[0]
+    req = lambda u, cb: A.clean({"k": "request", "user": u, "service": "ssh-connection", "method": "none", "cb": cb})
+    classes = {}
+    for w in sorted(wits, key=lambda w: (len(w["hist"]), repr(w["hist"]))):
+        if w["alive"] and not w["authenticated"] and w["mode"] == "plain" and pinned(w) == prim:
+            classes.setdefault((w["cfg"], w["failCount"]), w)
+    pinnedw = list(classes.values())
+    for i, w in enumerate(pinnedw[:3 if c.quick else len(pinnedw)]):
+        for who in (("client", "server")[i % 2:][:1] if c.quick else ("client", "server")):
+            seq = w["hist"] + [A.clean({"k": "rekey", "tok": who}), req(other, "ok"), req(prim, "ok")]
+            jobs.append({"bursts": A.single(seq), "opts": A.cfg_opts(w["cfg"]), "key": "rekey-switch|" + w["cfg"] + A.seq_key(seq),
+                         "names": A.DEFAULT_NAMES, "sample": i == 0})
+    for i, w in enumerate(near[:2 if c.quick else len(near)]):
+        for who in (("client", "server")[i % 2:][:1] if c.quick else ("client", "server")):
+            seq = w["hist"] + [A.clean({"k": "rekey", "tok": who})] + [req(prim, "fail")] * 4
+            jobs.append({"bursts": A.single(seq), "opts": {}, "key": "rekey-cap|" + A.seq_key(seq), "names": A.DEFAULT_NAMES})
     traces = A.execute(c, jobs, other_sid, "TLC-generated")
     ph["replay"] = round(time.time() - t0, 1)
     # ---- TV: code -> spec
@@ -90,7 +110,7 @@ def run(c):
               "plus one message of the %d-message alphabet, always including every request that names the other user or another "
               "service; %d walks towards the real cap of 10 over failing / partially succeeding / probing attempts, the ones at 8-9 "
               "failures extended by 4 further messages both step by step and pipelined; traces: seeded random sequences of 6-25 "
-              "messages mixing users, services, methods and outcomes, pipelined in random bursts; distinct = distinct "
+              "messages mixing users, services, methods, outcomes and key re-exchanges (client- or server-initiated, also just below the cap), pipelined in random bursts; distinct = distinct "
               "(configuration, message sequence, burst partition, rendering)" % (k["MaxDepth"] - 1, len(msgs), len(capwits)))
     ph["validated"] = round(time.time() - t0, 1)
     c.extra["phase_end_s"] = ph
